@@ -39,7 +39,8 @@ OWNERS = {
     "iohelper.NewSectionWriter": ["C18"], "iohelper.AtToWriter": ["C18"],
     "iohelper.SectionWriter.Seek": ["C18"], "iohelper.SectionWriter.Size": ["C18"],
     # listed to document the bail-out (loops): unsupported in the baseline as well
-    "bmtree.shiftMulti": ["C03"], "bmtree.IndexToPath": ["C05"], "bitmap.IndexRank64": ["C01"],
+    "bmtree.shiftMulti": ["C03"], "bmtree.IndexToPath": ["C05"], "bitmap.NextOne": ["C13"], "bitmap.PrevOne": ["C13"],
+    "bitmap.IndexRank64": ["C01"],
 }
 
 
